@@ -64,6 +64,9 @@ let () = Reg.register "c14.instantiate" (fun inp out ->
     | [A "ok"; _; _] when not (Templates.inst_checks (nat_of_int 400) m) ->
       (* the side conditions of the Coq theorem C14_instantiate_correct, evaluated on this model *)
       "bad:side-conditions-of-the-correctness-theorem-do-not-hold"
+    | [A "ok"; _; _] when m.m_params <> [] && not (TemplatesWf.wf_templates (nat_of_int 400) m) ->
+      (* the static hypothesis of C14_instantiate_correct_wf (implies inst_checks_core for every model) *)
+      "bad:static-well-formedness-wf_templates-does-not-hold"
     | [A "ok"; nts; _] ->
       let nts = get_nonterms nts in
       let t = SL.length m.m_terms in
